@@ -60,14 +60,36 @@ class SkelWalker:
         self._rounds: list[str] = []   # "<loop>.<round>" of the template loops being unrolled (outermost first)
         self._loops = 0
         self._module_envs: dict[str, dict[str, Any]] = {}
+        self._blocks: dict[str, list] = {}   # block name -> its definitions along the `extends` chain of the walked template, base first
+        self._supers: list[tuple[list, int]] = []  # the block definitions being written (innermost last)
 
     # ---- public --------------------------------------------------------------------------------------------------
     def walk_template(self, name: str) -> list[Item]:
         ti = self.jx.templates[name]
         self.out = []
         env: dict[str, Any] = {}
-        self._bind_toplevel(ti, env)
-        self.block(ti.tree.body, env, ti.name)
+        # `{% extends "base" %}`: the text is the base template's, in which every block the extending template defines stands for
+        # the base's block of that name (`super()` there prints the block it replaces); what the extending template binds at top
+        # level (macros, imports, `set`) is bound before the base's text is written
+        chain = [ti]
+        while True:
+            ext = next((n for n in chain[-1].tree.body if isinstance(n, nodes.Extends)), None)
+            if ext is None or not (isinstance(ext.template, nodes.Const) and ext.template.value in self.jx.templates) \
+                    or self.jx.templates[ext.template.value] in chain:
+                break
+            chain.append(self.jx.templates[ext.template.value])
+        self._blocks = {}
+        for t in reversed(chain):  # base first: the most derived definition of a block is the last one in its list
+            for b in t.tree.find_all(nodes.Block):
+                self._blocks.setdefault(b.name, []).append((t.name, b))
+        for t in chain[:-1]:
+            self._bind_toplevel(t, env)
+            for n in t.tree.body:
+                if isinstance(n, (nodes.FromImport, nodes.Import, nodes.Assign, nodes.AssignBlock, nodes.Macro)):
+                    self.stmt(n, env, t.name)
+        base = chain[-1]
+        self._bind_toplevel(base, env)
+        self.block(base.tree.body, env, base.name)
         return self.out
 
     def _bind_toplevel(self, ti: Any, env: dict[str, Any]) -> None:
@@ -134,13 +156,23 @@ class SkelWalker:
             loop, rnd = self._loops, 0
             if it is not None:
                 # a list the template builds itself (literal items, `map(attribute=...)`, concatenations): one round per item
-                for s, many in it[1]:
+                exact = not any(many for _s, many in it[1]) and n.test is None  # the rounds laid out are the rounds there are
+                for k, (s, many) in enumerate(it[1]):
                     for _ in range((2 if len(self.stack) <= 1 else 1) if many else 1):
                         e2 = dict(env)
                         rnd += 1
                         self._rounds.append(f"{loop}.{rnd}")
+                        # `loop.first` / `loop.last` are known in every round of a list whose items are all spelled out
+                        e2["loop"] = ("loop", {"first": k == 0, "last": k == len(it[1]) - 1} if exact else None)
                         if isinstance(n.target, nodes.Name):
                             e2[n.target.name] = self._stamped(s) if many else s  # (an item that stands for many: one entity per round)
+                        elif isinstance(n.target, nodes.Tuple) and self._kind(s) == "list" and len(s[1]) == len(n.target.items) \
+                                and not any(m for _c, m in s[1]):
+                            # an item that is itself a literal tuple / list: its components, one per target
+                            self._bind_target(n.target, n.iter, e2)
+                            for x, (c, _m) in zip(n.target.items, s[1]):
+                                if isinstance(x, nodes.Name):
+                                    e2[x.name] = c
                         else:
                             self._bind_target(n.target, n.iter, e2)
                         try:
@@ -150,6 +182,7 @@ class SkelWalker:
             else:
                 for _ in range(2 if len(self.stack) <= 1 else 1):
                     e2 = dict(env)
+                    e2["loop"] = ("loop", None)
                     self._bind_target(n.target, n.iter, e2)
                     rnd += 1
                     self._rounds.append(f"{loop}.{rnd}")
@@ -224,9 +257,22 @@ class SkelWalker:
                     e2[t.name] = self.val(v, env, tname)
             self.block(n.body, e2, tname)
             return
-        if isinstance(n, (nodes.Scope, nodes.Block)):
+        if isinstance(n, nodes.Block):
+            defs = getattr(self, "_blocks", {}).get(n.name) or [(tname, n)]
+            self._block_def(defs, len(defs) - 1, env)
+            return
+        if isinstance(n, nodes.Scope):
             self.block(getattr(n, "body", []), dict(env), tname)
             return
+
+    def _block_def(self, defs: list, k: int, env: dict[str, Any]) -> None:
+        """write the k-th definition of a block (`defs`: base first); `super()` in it writes the definition before it"""
+        tn, b = defs[k]
+        self._supers.append((defs, k))
+        try:
+            self.block(b.body, dict(env), tn)
+        finally:
+            self._supers.pop()
 
     def _merge(self, env: dict[str, Any], ends: list[dict[str, Any]]) -> None:
         """Bindings after an `if`, from the bindings at the end of each of its paths (`ends`, one per branch, in order)."""
@@ -296,6 +342,24 @@ class SkelWalker:
             if isinstance(v, tuple) and len(v) == 1 and isinstance(v[0], Item) and v[0].kind == "o" and v[0].text in ("True", "False"):
                 val = v[0].text == "True"
                 return (not val) if neg else val
+        if isinstance(test, nodes.Const) and isinstance(test.value, bool):
+            return (not test.value) if neg else test.value
+        if isinstance(test, nodes.Getattr) and isinstance(test.node, nodes.Name) and test.node.name == "loop" and test.attr in ("first", "last"):
+            # a round of a loop over a list whose items the template spells out: which round it is is known
+            v = env.get("loop")
+            if isinstance(v, tuple) and len(v) == 2 and v[0] == "loop" and isinstance(v[1], dict):
+                val = v[1][test.attr]
+                return (not val) if neg else val
+        if isinstance(test, (nodes.And, nodes.Or)):
+            a, b = SkelWalker._const_test(test.left, env), SkelWalker._const_test(test.right, env)
+            absorbing = isinstance(test, nodes.Or)  # `or`: one true operand decides; `and`: one false operand decides
+            if a is absorbing or b is absorbing:
+                val = absorbing
+            elif a is None or b is None:
+                return None
+            else:
+                val = not absorbing
+            return (not val) if neg else val
         return None
 
     def _cur_indent(self, pending: Sym = ()) -> int:
@@ -360,6 +424,13 @@ class SkelWalker:
             got = self._formatted(e.left.value.split("%s"), args, env, tname)
             if got is not None:
                 return got
+        if isinstance(e, nodes.Mul):
+            # `" " * 8`: a text the template spells out, repeated a literal number of times
+            for txt, cnt in ((e.left, e.right), (e.right, e.left)):
+                if isinstance(cnt, nodes.Const) and isinstance(cnt.value, int) and not isinstance(cnt.value, bool) and 0 <= cnt.value <= 64:
+                    base = self.sym(txt, env, tname)
+                    if self._text_of(base) is not None and not (isinstance(txt, nodes.Const) and not isinstance(txt.value, str)):
+                        return base * cnt.value
         if isinstance(e, (nodes.Add, nodes.Concat)):
             parts = [e.left, e.right] if isinstance(e, nodes.Add) else list(e.nodes)
             out: Sym = ()
@@ -382,7 +453,7 @@ class SkelWalker:
                     out2: Sym = ()
                     for s, many in lst[1]:
                         for _ in range(2 if many else 1):
-                            out2 += (sep if out2 else ()) + s
+                            out2 += (sep if out2 else ()) + self._printed(s)
                     return out2
             base = self.sym(e.node, env, tname) if e.node is not None else ()
             return self._filtered(e, base, env, tname)
@@ -411,6 +482,11 @@ class SkelWalker:
             w_, first = (e.args[0] if e.args else kw.get("width")), (e.args[1] if len(e.args) > 1 else kw.get("first"))
             if isinstance(w_, nodes.Const) and isinstance(w_.value, int):
                 width = w_.value
+            elif isinstance(w_, nodes.Filter) and w_.name in ("length", "count") and w_.node is not None and not w_.args:
+                # the width is the length of a text the template spells out (`indent(pad | length)`)
+                pad = self._text_of(self.sym(w_.node, env, tname))
+                if pad is not None:
+                    width = len(pad)
             out = self._indent(base, width)
             if isinstance(first, nodes.Const) and first.value:
                 out = T(" " * width) + out
@@ -446,6 +522,8 @@ class SkelWalker:
     def _stamped(self, s: Sym) -> Sym:
         """s as the item of the current round of a loop over a list the template built before the loop"""
         here = "/".join(self._rounds)
+        if self._kind(s) != "sym":
+            return s  # (a macro, a template module, an object, a list: no text, nothing to stamp)
         out = []
         for it in s:
             if it.kind == "n":
@@ -456,6 +534,35 @@ class SkelWalker:
                 out.append(it)
         return tuple(out)
 
+    @staticmethod
+    def _text_of(s: Any) -> "str | None":
+        """the text of a value that is nothing but text the template spells out (no hole, no alternative)"""
+        if SkelWalker._kind(s) != "sym" or any(it.kind != "t" for it in s):
+            return None
+        return "".join(it.text for it in s)
+
+    def _printed(self, v: Any) -> Sym:
+        """what an item of a list prints as (a macro, a template module, an object or a list prints as an opaque value)"""
+        if self._kind(v) == "sym":
+            return v
+        if v[0] == "obj":
+            return (Item("o", v[1]),)
+        if v[0] == "list":
+            return (Item("o", "<list>", self._idents_of(tuple(it for s, _m in v[1] for it in self._printed(s)))),)
+        return (Item("o", f"<{v[0]}>"),)
+
+    def _item_val(self, x: nodes.Node, env: dict[str, Any], tname: str) -> Any:
+        """the value of an item of a literal list / tuple: a name bound to a macro, a template module, an object or a list keeps
+        that value (so the loop variable can be called, or taken apart, like the name itself); an item that is itself a literal
+        list / tuple keeps its components; anything else is what it prints as"""
+        if isinstance(x, nodes.Name):
+            v = env.get(x.name)
+            if isinstance(v, tuple) and v and v[0] in ("macros", "tplmods", "obj", "list"):
+                return v
+        if isinstance(x, (nodes.List, nodes.Tuple)):
+            return ("list", tuple((self._item_val(y, env, tname), False) for y in x.items))
+        return self.sym(x, env, tname)
+
     def _attr_of(self, root: str, attr: str, tname: str) -> Sym:
         if attr in NAME_ATTRS:
             return (self._name_item(f"{root}.{attr}", tname),)
@@ -464,7 +571,7 @@ class SkelWalker:
     def as_list(self, e: nodes.Node, env: dict[str, Any], tname: str) -> "tuple | None":
         """The list value of e when the template spells out what its items print as (None: an opaque iterable)."""
         if isinstance(e, (nodes.List, nodes.Tuple)):
-            return ("list", tuple((self.sym(x, env, tname), False) for x in e.items))
+            return ("list", tuple((self._item_val(x, env, tname), False) for x in e.items))
         if isinstance(e, nodes.Name):
             v = env.get(e.name)
             return v if isinstance(v, tuple) and len(v) == 2 and v[0] == "list" else None
@@ -486,10 +593,12 @@ class SkelWalker:
                     return None
                 out = []
                 for s, many in self._items_of(e.node, env, tname):
-                    if len(s) == 1 and s[0].kind == "o":
+                    if self._kind(s) == "obj":
+                        out.append((self._attr_of(s[1], attr, tname), many))
+                    elif self._kind(s) == "sym" and len(s) == 1 and s[0].kind == "o":
                         out.append((self._attr_of(s[0].text, attr, tname), many))
                     else:
-                        out.append(((Item("o", f"{expr_text(e)}", self._idents_of(s)),), many))
+                        out.append(((Item("o", f"{expr_text(e)}", self._idents_of(self._printed(s))),), many))
                 return ("list", tuple(out))
             if e.name in self._SAME_ITEMS:
                 return self.as_list(e.node, env, tname)
@@ -542,6 +651,17 @@ class SkelWalker:
         targets: list[tuple[str, str]] = []
         if isinstance(fn, nodes.Name) and fn.name == "caller" and self._caller and "caller" not in env:
             return self._caller[-1]
+        if isinstance(fn, nodes.Name) and fn.name == "super" and self._supers and "super" not in env and not e.args:
+            defs, k = self._supers[-1]
+            if k == 0:
+                return ()
+            saved = self.out
+            self.out = []
+            try:
+                self._block_def(defs, k - 1, env)
+                return tuple(self.out)
+            finally:
+                self.out = saved
         if isinstance(fn, nodes.Getattr) and fn.attr == "format" and isinstance(fn.node, nodes.Const) and isinstance(fn.node.value, str) \
                 and not e.kwargs and not e.dyn_args and not e.dyn_kwargs:
             got = self._formatted(re.split(r"\{\d*\}", fn.node.value), e.args, env, tname)
